@@ -56,6 +56,7 @@ type harness struct {
 	sc      *Scenario
 	clients []uhppote.IUHPPOTE
 	devs    [][]uhppote.Device
+	devs0   [][]uhppote.Device // pristine copies of what the clients were built from
 	qs      map[[2]int]chan os.Signal
 }
 
@@ -300,6 +301,14 @@ func (h *harness) build() {
 			c.Timeout, devs, c.Debug)
 		h.clients = append(h.clients, u)
 		h.devs = append(h.devs, devs)
+		pristine := make([]uhppote.Device, len(devs))
+		for i, d := range devs {
+			pristine[i] = d
+			if d.Doors != nil {
+				pristine[i].Doors = append([]string{}, d.Doors...)
+			}
+		}
+		h.devs0 = append(h.devs0, pristine)
 	}
 }
 
@@ -489,6 +498,9 @@ func (h *harness) task(ti int) {
 			if msg := cloneChecks(st); msg != "" {
 				h.point("clone-aliased", -1, msg)
 			}
+			if msg := h.configKept(st.Client); msg != "" {
+				h.point("config-changed", -1, msg)
+			}
 		}
 	}
 	// results must still read the same at the end of the task
@@ -500,6 +512,40 @@ func (h *harness) task(ti int) {
 			}
 		}
 	}
+}
+
+// configKept compares what the client reports as its configuration with what it was built from
+// (the last entry wins where a controller is listed twice). Door names are left out: they are
+// reachable - and legitimately changed by the mutate-devlist step - through DeviceList().
+func (h *harness) configKept(client int) string {
+	if client < 0 || client >= len(h.clients) {
+		return ""
+	}
+	want := map[uint32]uhppote.Device{}
+	for _, d := range h.devs0[client] {
+		want[d.DeviceID] = d
+	}
+	got := h.clients[client].DeviceList()
+	if len(got) != len(want) {
+		return fmt.Sprintf("the client was built with %d controllers and lists %d", len(want), len(got))
+	}
+	ids := make([]uint32, 0, len(want))
+	for id := range want {
+		ids = append(ids, id)
+	}
+	sort.Slice(ids, func(i, j int) bool { return ids[i] < ids[j] })
+	for _, id := range ids {
+		w := want[id]
+		g, ok := got[id]
+		if !ok {
+			return fmt.Sprintf("controller %d is missing from the client's configuration", id)
+		}
+		if g.Name != w.Name || g.DeviceID != w.DeviceID || g.Address != w.Address || g.Protocol != w.Protocol || g.TimeZone != w.TimeZone || len(g.Doors) != len(w.Doors) {
+			return fmt.Sprintf("controller %d: built with {name:%q address:%v protocol:%q zone:%v doors:%d}, the client holds {name:%q address:%v protocol:%q zone:%v doors:%d}",
+				id, w.Name, w.Address, w.Protocol, w.TimeZone, len(w.Doors), g.Name, g.Address, g.Protocol, g.TimeZone, len(g.Doors))
+		}
+	}
+	return ""
 }
 
 // ---- listener -------------------------------------------------------------------------------
@@ -1206,16 +1252,25 @@ func cloneChecks(st *Step) string {
 		}
 	}
 	// device
-	doors := []string{"a", "b", "c", "d"}
-	d := uhppote.Device{Name: "x", DeviceID: st.Args.Serial, Address: types.ControllerAddr{AddrPort: netip.MustParseAddrPort("192.168.1.100:60000")}, Doors: doors, TimeZone: time.UTC, Protocol: "udp"}
+	// the variant is a function of the step's data only (tasks draw no random numbers)
+	v := st.Args.Serial
+	doors := [][]string{{"a", "b", "c", "d"}, {"a", "b", "c", "d"}, {}, {"only"}, {"1", "2", "3", "4", "5"}}[v%5]
+	want := append([]string{}, doors...)
+	zone := []*time.Location{time.UTC, nil, time.Local, time.FixedZone("X", 3600*5+1800)}[(v/5)%4]
+	proto := []string{"udp", "tcp", "", "any", "TCP", "udp4", "junk"}[(v/20)%7]
+	addr := []netip.AddrPort{netip.MustParseAddrPort("192.168.1.100:60000"), {}, netip.MustParseAddrPort("0.0.0.0:0"), netip.MustParseAddrPort("10.0.0.1:0"), netip.MustParseAddrPort("192.168.1.100:12345")}[(v/140)%5]
+	d := uhppote.Device{Name: []string{"x", ""}[(v/700)%2], DeviceID: st.Args.Serial, Address: types.ControllerAddr{AddrPort: addr}, Doors: doors, TimeZone: zone, Protocol: proto}
 	c := d.Clone()
-	if c.Name != d.Name || c.DeviceID != d.DeviceID || c.Address != d.Address || c.Protocol != d.Protocol || !reflect.DeepEqual(c.Doors, d.Doors) {
+	if c.Name != d.Name || c.DeviceID != d.DeviceID || c.Address != d.Address || c.Protocol != d.Protocol || c.TimeZone != d.TimeZone || len(c.Doors) != len(d.Doors) {
 		return fmt.Sprintf("Device.Clone: clone differs: %+v vs %+v", c, d)
 	}
 	for i := range c.Doors {
+		if c.Doors[i] != d.Doors[i] {
+			return fmt.Sprintf("Device.Clone: clone differs: %+v vs %+v", c, d)
+		}
 		c.Doors[i] = "mutated"
 	}
-	if !reflect.DeepEqual(d.Doors, []string{"a", "b", "c", "d"}) {
+	if !reflect.DeepEqual(d.Doors, want) {
 		return "Device.Clone shares the Doors slice with the original"
 	}
 	return ""
